@@ -25,6 +25,31 @@ POOL_LIT = ['0', '1', '-1', '2147483648', '0x7fffffffffffffff', '184467440737095
             '4294967296', '99999999999999999999999', '\\', '@', '`', '$', '\x7f']
 
 SNIPPETS = r'''
+#define C(a,b) a##b
+C(/,/)
+#define C(a,b) a##b
+C(/,*) x */
+#define C(a,b) a##b
+int C(/,/) y;
+#define F(x) x ##
+F()
+#define F(x) ## x
+F()
+#define F(x,y) x ## y ##
+F(,)
+#define O a ##
+O
+#line 2147483647
+int f(void) { return 1; }
+#line 2147483646 "z.c"
+int f(void) { return 1 +
+ 2; }
+#line 4294967296
+int x;
+static int x = 1; int x = 2;
+int x = 1; static int x = 2;
+static int x; int x = 2; int x;
+extern int x; static int x = 3;
 long y = (-9223372036854775807L-1)%-1;
 long y = (-9223372036854775807L-1)%-1L + (-9223372036854775807L-1)/-1L;
 enum { E = (-9223372036854775807L-1) % -1 };
@@ -412,7 +437,9 @@ def stack_key(errt):
             names.append(m.group(1))
         if len(names) >= 40:
             break
-    return '+'.join(sorted(set(names)))
+    # only the functions of the recursion cycle (>= 3 occurrences): the leaf frames in which the guard page happens to be hit are noise
+    cyc = sorted(n for n in set(names) if names.count(n) >= 3)
+    return '+'.join(cyc or sorted(set(names)))
 
 
 def run_case(cc, path, extra, workdir, tag, timeout=10):
